@@ -258,6 +258,7 @@ pub fn find(params: &[Value]) -> NativeResult {
     match params {
         [Value::String(haystack), Value::String(needle)] => Ok(haystack
             .find(needle)
+            .map(|byte_index| haystack[..byte_index].chars().count()) // position in characters
             .map_or(Value::Number(-1.0 + STRING_OFFSET), |index| {
                 Value::Number(f64_from_usize(index) + STRING_OFFSET)
             })),
